@@ -608,8 +608,17 @@ def kmsg_record_complete(ctx, tag):
             continue
         var = m.group(1)
         init, v = local_init(kl, var, must=False)
+        for _hop in range(3):       # a reference alias of the buffer (const auto& out = message)
+            if v is None or init is None or init < 0:
+                break
+            tgt = kl.nodes[kl.strip(init)]
+            if tgt["k"] == "ref" and tgt.get("dk") == "local" and v.get("isref"):
+                var = tgt["name"]
+                init, v = local_init(kl, var, must=False)
+            else:
+                break
         src = X(init) if v is not None and init is not None and init >= 0 else "?"
-        whole = kl.text(a[2]) in ("%s.size()" % var, "%s.length()" % var)
+        whole = kl.text(a[2]) in ("%s.size()" % var, "%s.length()" % var, "%s.size()" % m.group(1), "%s.length()" % m.group(1))
         verbatim = re.match(r"^(std::string\()?param:buf\)?$|^std::basic_string<char>\(param:buf\)$", src) is not None
         shrinks = [kl.text(j)[:50] for j in kl.calls(*SHRINK) if kl.text(kl.nodes[j].get("recv", -1)) == var and kl.nodes[j].get("cname") != "operator="]
         ctx.check(verbatim and whole and not shrinks, tag + ":kmsg-record-complete", "provenance + who-may-write (extend only)", kl.loc(i),
